@@ -512,6 +512,9 @@ func resourceMain(args []string) {
 				}
 			}
 			k := strings.Join(sortedKeys(made), "+")
+			if len(h) > 0 {
+				k = h[0].TName + ":" + k // ... and the type the history starts with
+			}
 			classes[k] = append(classes[k], h)
 		}
 		total := len(hists) - len(rare)
